@@ -42,12 +42,18 @@ CLAIMED = {
          'by the correspondence run.', NOTE_COMMON + 'SHA-256 is a parameter.', 'Lean 4 proof (hand model) + differential correspondence', '6/C03'),
  'C04': ('Kernel-checked theorem for every hash type without the undefined 0x70 bits, any index, any script/amount: the hand model of '
          'get_transaction_segwit_digest equals double-SHA256 of the BIP143 preimage Spec (CompactSize prefixes everywhere, zero hashOutputs for '
-         'SINGLE out of range); independent of scriptSigs/witnesses. Model tied to the code by the correspondence run.',
-         NOTE_COMMON + 'SHA-256 is a parameter.', 'Lean 4 proof (hand model) + differential correspondence', '6/C04'),
+         'SINGLE out of range); independent of scriptSigs/witnesses. Tier T: get_transaction_segwit_digest is re-translated from the working tree on '
+         'every run and proved to return, results and exceptions, what the model returns for every transaction, index, script code, amount and hash '
+         'type (scripts < 2^64 bytes), so the BIP143 theorem is about the translated code; the generated function is also run against the implementation.',
+         NOTE_COMMON + 'SHA-256 is a parameter; translator semantics (gen/py2lean.py, BU/Py.lean) trusted.', 'Lean 4 proof over translated source + differential correspondence', '6/C04'),
  'C05': ('Kernel-checked theorem for the seven valid hash types, key path and script path, any index/shape/script length: the hand model of '
          'get_transaction_taproot_digest equals the BIP341 SigMsg / BIP342 extension Spec under the TapSighash tagged hash; independent of '
-         'scriptSigs/witnesses. Model tied to the code by the correspondence run.',
-         NOTE_COMMON + 'SHA-256 is a parameter.', 'Lean 4 proof (hand model) + differential correspondence', '6/C05'),
+         'scriptSigs/witnesses. Tier T: get_transaction_taproot_digest is re-translated from the working tree on every run (five loops, the '
+         'ANYONECANPAY/NONE/SINGLE analysis, the indexing of inputs/amounts/script_pubkeys/outputs, the script-path extension; the read-only '
+         'Transaction.copy(self) denotes self, rejected by the translator if ever written to) and proved to return, results and exceptions, what the '
+         'model returns for every transaction, index, spent scripts and amounts, extension flag, leaf, leaf_ver and hash type (scripts < 2^64 bytes), '
+         'so the BIP341 theorem is about the translated code; the generated function is also run against the implementation.',
+         NOTE_COMMON + 'SHA-256 is a parameter; translator semantics (gen/py2lean.py, BU/Py.lean) trusted.', 'Lean 4 proof over translated source + differential correspondence', '6/C05'),
  'C15': ('Kernel-checked theorems: 80-byte header parse/serialise round trip with little-endian fields and reversed hashes, block hash = reversed '
          'double-SHA256, compact target expansion, the independent length scanner agrees with the serialiser on every well-formed transaction, and '
          'parsing a framed block yields exactly the parses of the slices (any number of transactions). get_transaction_length is re-translated on every run and proved to agree with the model scanner on every byte string (tier T). Model tied to the code by the correspondence '
@@ -56,9 +62,10 @@ CLAIMED = {
  'C08': ('Kernel-checked theorems for every tree shape, depth and leaf index (no bound): the merkle root is BIP341\'s (TapLeaf 0xc0 / sorted '
          'TapBranch), folding TapBranch over the generated path from the target leaf gives the root (through the code\'s global leaf counter), the '
          'address program/parity are lift_x(P) + H_TapTweak(P||root)*G, and the BIP341 script-path verifier recomputes exactly that program and '
-         'parity from every generated control block. Curve facts enter as explicit hypotheses (lift_x of the key, tweak < n). Model tied to the '
-         'code by the correspondence run.', NOTE_COMMON + 'SHA-256 parameter; lift_x(internal key) and tweak < n are hypotheses of the curve-dependent theorems.',
-         'Lean 4 proof (hand model) + differential correspondence', '6/C08'),
+         'parity from every generated control block. Curve facts enter as explicit hypotheses (lift_x of the key, tweak < n). The tagged-hash '
+         'leaves (utils.tagged_hash, tapleaf_tagged_hash, tapbranch_tagged_hash incl. the lexicographic ordering of the children) are re-translated on '
+         'every run and proved equal to the Spec hashes (tier T); tree walk, control block and tweak are a hand model tied to the code by the correspondence run.', NOTE_COMMON + 'SHA-256 parameter; lift_x(internal key) and tweak < n are hypotheses of the curve-dependent theorems.',
+         'Lean 4 proof (hand model; tagged-hash leaves over translated source) + differential correspondence', '6/C08'),
  'C07': ('Kernel-checked theorems (the secp256k1 group-law facts CurveLaws are themselves proved: primes by Pratt certificates, Mathlib Weierstrass group law, n*G = 0 by kernel evaluation): for every secret in [1,n-1], every tweak and both parities of '
          'the internal and of the tweaked key, the secret derived by tweak_taproot_privkey is the discrete log of the point whose x coordinate the '
          'address commits to; a key-path signature verifies (BIP340) under exactly that output key, a script-path signature under the x-only '
@@ -72,9 +79,10 @@ CLAIMED = {
          'signature, which verifies; signing never fails (group law proved). Tier T (source re-translated on every run): the whole of ripemd160.py '
          '(rol, fi, compress, ripemd160) is proved equal to the word-level model and hence to the specification for every message < 2^61 bytes, and '
          'the curve arithmetic of schnorr.py (point_add, point_mul, lift_x, has_even_y) is proved equal to the executable secp256k1 functions the '
-         'group law is proved about. schnorr_sign / schnorr_verify themselves are a hand model tied to the code by the correspondence run (libsecp256k1 as cross-oracle).',
+         'group law is proved about; schnorr_sign / schnorr_verify (and their helpers) are likewise translated and proved equal to the BIP340 model on every '
+         'input, so sign-then-verify and verify = BIP340 hold of the translated code (libsecp256k1 remains a cross-oracle in the correspondence run).',
          NOTE_COMMON + 'SHA-256 parameter.',
-         'Lean 4 proof over translated source (RIPEMD-160, curve arithmetic) and hand model (BIP340 sign/verify) + differential correspondence', '6/C20'),
+         'Lean 4 proof over translated source (RIPEMD-160, curve arithmetic, BIP340 sign/verify) + differential correspondence', '6/C20'),
  'C06': ('Kernel-checked theorems for every (r, s) in range (all byte-length classes): the hand model of the repository\'s own logic in _sign_input '
          '(low-R grinding on byte 3, decode, low-S, re-encode, hash-type byte) yields a strictly DER (BIP66) signature with r < 2^255, the low '
          'representative of s and exactly the hash-type byte; replacing s by n-s preserves validity (secp256k1 group law proved, no hypothesis). python-ecdsa (RFC6979 signing, DER '
@@ -104,8 +112,10 @@ CLAIMED = {
          'Lean 4 proof (hand model) + differential correspondence', '6/C11'),
  'C12': ('Kernel-checked theorems: the five locking-script templates evaluate, through the generated opcode dictionaries and the push-form tie, to the '
          'standard bytes for every 20/32-byte hash; script-hash commitments are RIPEMD160(SHA256(bytes)) / SHA256(bytes) of the exact script '
-         'encoding (uses the RIPEMD-160 theorem of C20); helper output = locking script of the address from the same script. Model tied to the '
-         'code by the correspondence run.', NOTE_COMMON + 'SHA-256 parameter.', 'Lean 4 proof (hand model + generated tables) + differential correspondence', '6/C12'),
+         'encoding (uses the RIPEMD-160 theorem of C20); helper output = locking script of the address from the same script. Tier T: the five '
+         'to_script_pub_key methods and Script.to_p2sh_script_pub_key / to_p2wsh_script_pub_key are re-translated on every run and proved to return the '
+         'model templates / commitments (and through Script.to_bytes, also translated, the standard bytes); the address classes that supply the hash are '
+         'tied by the correspondence run.', NOTE_COMMON + 'SHA-256 parameter.', 'Lean 4 proof over translated source (templates, commitments) + differential correspondence', '6/C12'),
  'C19': ('Kernel-checked theorems about the wrapper over a parameter model {root, current} of the third-party hdwallet object: after any sequence '
          'of from_path calls the key is the BIP32 private child derivation of the ROOT along the last path (the reset cannot be lost), construction '
          'from mnemonic / extended key holds the BIP39-seed master / the given key chain, on every generated network the WIF prefix used for the '
@@ -132,7 +142,8 @@ CLAIMED = {
          'as a kernel-evaluated witness and a forced-digest run on the real code show); soundness of verification for every triple: success implies '
          'a 65-byte signature with header 27..35 whose (r, s) is ECDSA-valid for this message\'s digest under a key whose P2PKH address is the given '
          'one; anything else is false or raises. Agreement of acceptance with a libsecp256k1-based recovery on forged triples (both directions) is by the '
-         'correspondence run (Spec recovery in Lean + coincurve as cross-oracle).',
+         'correspondence run (Spec recovery in Lean + coincurve as cross-oracle). add_magic_prefix is re-translated on every run and proved equal to '
+         'the model prefix for every message (tier T).',
          NOTE_COMMON + 'python-ecdsa signing (its (r, s) is an input of the model), verify_digest and sympy sqrt_mod are parameters modelled by their '
          'specification; completeness of verification (every libsecp256k1-accepted triple is accepted) is correspondence only (partial).',
          'Lean 4 proof (hand model, third-party signer as parameter) + differential correspondence', '6/C14'),
